@@ -247,7 +247,7 @@ func main() {
 	r.Set("outcomes", outcomes)
 	r.Set("max_points_per_execution", maxPts)
 	r.Set("rule", "one execution = one complete schedule (scheduling points = every Lock/RLock/atomic op of measure/snapshot.go, part.go, introducer.go, tstable.go, plus spawned part-removal goroutines) of a 3-thread scenario on a real measure tsTable; stateless search: states/transitions count executions; distinct_nontrivial = scenarios, all of which have a query overlapping snapshot replacement or close")
-	r.Assume("sequential consistency at hooked sync/atomic operations; unsynchronised accesses are invisible to the cooperative scheduler")
+	r.Assume("sequential consistency at hooked sync/atomic operations; unsynchronised accesses are invisible to the cooperative scheduler (covered separately, by sampling, by the free-running -race pass of the measure, stream and trace families: metrics.race_pass)")
 	r.Assume("introducer/flusher/merger loops are replaced by one harness thread calling the loops' step functions in loop order (channels are not hooked)")
 	r.Finish()
 }
